@@ -672,6 +672,16 @@ fn run_rbig(c: &RCase, _ctx: &Ctx) -> Out {
                     }
                 }
             }
+            // to_int: the truncated value, Exact exactly when there is no fractional part; the
+            // fraction handed back with Inexact is the fractional part
+            match catch(|| x.to_int()) {
+                Err(m) => out.fail(format!("{}::to_int panicked: {}", $tn, normalise(&m))),
+                Ok(dashu_base::Approximation::Exact(t)) => out.check(q.is_integer() && i2n(&t) == want_trunc, || format!("{}::to_int of {} = Exact({})", $tn, show_q(&q), show_i(&i2n(&t)))),
+                Ok(dashu_base::Approximation::Inexact(t, f)) => {
+                    let fq = rat(f.numerator(), f.denominator());
+                    out.check(!q.is_integer() && i2n(&t) == want_trunc && fq == want_fract, || format!("{}::to_int of {} = Inexact({}, {}), want trunc {} and fract {}", $tn, show_q(&q), show_i(&i2n(&t)), show_q(&fq), show_i(&want_trunc), show_q(&want_fract)));
+                }
+            }
             match catch(|| x.clone().split_at_point()) {
                 Err(m) => out.fail(format!("{}::split_at_point panicked: {}", $tn, normalise(&m))),
                 Ok((t, g)) => {
@@ -897,7 +907,7 @@ macro_rules! ratio_subs {
 fn main() {
     let mut ck = Check::new(
         "C10",
-        "FBig trunc/floor/ceil/round/fract/split_at_point (5 bases; the type's mode is irrelevant, two are instantiated), to_int and with_precision (6 modes × bases {2,3,10,16,36}), RBig/Relaxed trunc/floor/ceil/round/fract/split_at_point, and the primitives Round::round_fract (6 modes × 5 bases) / round_ratio (6 modes). Float operands have <= p digits (p ∈ 1..130 or unlimited) from digit patterns (1 0..0, B-1 repeated, half, random, ...) in the classes: |x| < 1/B with -exponent beyond the precision, the 0.0099 shape, n + 1/2 and n + 1/2 ± one unit in the last place, integers, mixed integer/fraction digits, the smaller_than_one boundary (top digit at 10^-1..10^-4), exponents to ±400, zero, negatives; with_precision targets {0, 1, d-1, d, d+1, p, p+1, d/2} and constructed ties of the removed part; rationals: small, k+1/2 (scaled), integers, k + (d/2 ± 1)/d, |x|<1, shared factors, up to ~70 words; primitives: integer part 0, ±1..3 (parity), word/dword boundaries, random; low part 0, 1, m-1, m/2, m/2 ± 1, m/2 ± small, within 2^-20 of m/2, random, both signs independent of the integer's, digits 0..60 (rarely to 12000), negative denominators. Oracle: the definition evaluated on exact rationals (num-rational) — floor/ceil/trunc/ties-away, mode(x) for the six modes, trunc + fract = x, Exact <=> no fraction, AddOne => result > x, SubOne => result < x, integer + adjustment = mode(integer + fraction); with_precision additionally by the six-clause contract and digits <= p2. Non-trivial: the fractional (removed) part is non-zero; distinct by case digest.",
+        "FBig trunc/floor/ceil/round/fract/split_at_point (5 bases; the type's mode is irrelevant, two are instantiated), to_int and with_precision (6 modes × bases {2,3,10,16,36}), RBig/Relaxed trunc/floor/ceil/round/fract/split_at_point/to_int, and the primitives Round::round_fract (6 modes × 5 bases) / round_ratio (6 modes). Float operands have <= p digits (p ∈ 1..130 or unlimited) from digit patterns (1 0..0, B-1 repeated, half, random, ...) in the classes: |x| < 1/B with -exponent beyond the precision, the 0.0099 shape, n + 1/2 and n + 1/2 ± one unit in the last place, integers, mixed integer/fraction digits, the smaller_than_one boundary (top digit at 10^-1..10^-4), exponents to ±400, zero, negatives; with_precision targets {0, 1, d-1, d, d+1, p, p+1, d/2} and constructed ties of the removed part; rationals: small, k+1/2 (scaled), integers, k + (d/2 ± 1)/d, |x|<1, shared factors, up to ~70 words; primitives: integer part 0, ±1..3 (parity), word/dword boundaries, random; low part 0, 1, m-1, m/2, m/2 ± 1, m/2 ± small, within 2^-20 of m/2, random, both signs independent of the integer's, digits 0..60 (rarely to 12000), negative denominators. Oracle: the definition evaluated on exact rationals (num-rational) — floor/ceil/trunc/ties-away, mode(x) for the six modes, trunc + fract = x, Exact <=> no fraction, AddOne => result > x, SubOne => result < x, integer + adjustment = mode(integer + fraction); with_precision additionally by the six-clause contract and digits <= p2. Non-trivial: the fractional (removed) part is non-zero; distinct by case digest.",
     );
     subs!(ck, 2 "2", 3 "3", 10 "10", 16 "16", 36 "36");
     ck.sub("rbig_round", (15_000, 375_000), rbig_case, run_rbig);
